@@ -764,15 +764,16 @@ func calAndSetEventNode(e *Expr) {
 			isFastOp = n.getNodeType() == fastOperator
 		)
 		return func(ctx *Ctx, params []Value) (res Value, err error) {
+			// params may be a buffer reused by the engine and an operator may write to it:
+			// the event keeps its own copy of the arguments as they are at call time
+			args := append([]Value(nil), params...)
 			res, err = op(ctx, params)
-			// params may be a buffer reused by the engine, the event keeps its own copy
-			params = append([]Value(nil), params...)
 			e.EventChan <- Event{
 				EventType: OpExecEvent,
 				Data: OpEventData{
 					IsFastOp: isFastOp,
 					OpName:   name,
-					Params:   params,
+					Params:   args,
 					Res:      res,
 					Err:      err,
 				},
